@@ -534,10 +534,23 @@ def check_flatten_reshape(ctx, chk):
             news_o = [ev for ev in s.events if ev.kind == "new" and ev.data["cls"] == "Observation"]
             if len(news_o) == 1 and len(s.returns) == 1 and s.returns[0][1] == news_o[0].data["obj"]:
                 obj = news_o[0].data["obj"]
-                final = cn.show(ip.heap[obj[2]]["fields"].get("tensor", ("unknown", "?")))
-                # every alternative of the final value is the array or its reshape
-                alts = re.sub(r"^\(|\)$", "", final)
-                ok_t = arr in final and "zeros(" not in final
+                ft = cn.norm(ip.heap[obj[2]]["fields"].get("tensor", ("unknown", "?")))
+                final = cn.show(ft)
+
+                def leaves(t, yes=(), no=()):
+                    """alternatives of a conditional value that are consistent with the conditions
+                    already taken on the way (the same test nested in itself has one live side)"""
+                    if t[0] == "phi":
+                        c = t[1]
+                        if c in yes:
+                            return leaves(t[2], yes, no)
+                        if c in no:
+                            return leaves(t[3], yes, no)
+                        return leaves(t[2], yes + (c,), no) + leaves(t[3], yes, no + (c,))
+                    return [t]
+                # every live alternative is the array or its reshape
+                lv = [cn.show(x) for x in leaves(ft)]
+                ok_t = bool(lv) and all(arr in x and "zeros(" not in x for x in lv)
                 chk.ob("C09.from-numpy", "Observation.from_numpy returns an observation whose tensor "
                        "is the given array (reshaped when needed) on every path", ok_t,
                        f"tensor = {final[:200]}", f"{ci.module.path}:{m.node.lineno}")
